@@ -201,6 +201,18 @@ func RunOne(t *testing.T, h Harness, prop, tier string, sc any, cfg simrt.Config
 				res.Machinery = "race report inside the simulator:\n" + rr.text
 				continue
 			}
+			if rr.mapAccess && prop == "C12" {
+				// Unsynchronised access to a Go map from two goroutines is not only a
+				// data race: the runtime detects it (best effort) and kills the process
+				// with "fatal error: concurrent map iteration and map write" / "concurrent
+				// map writes", which no recover() can stop. A peer whose messages reach
+				// both accesses can therefore crash the process (C12).
+				v := Violation{Sig: "C12/fatal-concurrent-map-access/" + rr.sig, Detail: "two tasks access one Go map without synchronisation; in a real process the runtime aborts with `fatal error: concurrent map ...`\n" + rr.text}
+				if xx != nil {
+					xx.Viol = append(xx.Viol, v)
+				}
+				res.Viol = append(res.Viol, v)
+			}
 			rp := prop
 			if rph, ok := h.(interface{ RaceProperty(string) string }); ok {
 				rp = rph.RaceProperty(prop)
@@ -298,6 +310,7 @@ type raceReport struct {
 	sig       string
 	text      string
 	machinery bool
+	mapAccess bool // one of the racing accesses is a Go map operation
 }
 
 var raceLogOffset int64
@@ -333,6 +346,7 @@ func readRaceReports() []raceReport {
 		// First repository frame of each of the two access stacks.
 		var tops []string
 		allSim := true
+		mapAccess := false
 		sections := regexp.MustCompile(`(?m)^(Read|Write|Previous read|Previous write|Atomic|Previous atomic)[^\n]*:$`).FindAllStringIndex(blk, -1)
 		for i, se := range sections {
 			end := len(blk)
@@ -344,12 +358,19 @@ func readRaceReports() []raceReport {
 				body = body[:j]
 			}
 			top := ""
+			firstFrame := true
 			for _, ln := range strings.Split(body, "\n") {
 				m := raceFrame.FindStringSubmatch(ln)
 				if m == nil {
 					continue
 				}
 				fn := m[1]
+				if firstFrame {
+					firstFrame = false
+					if strings.HasPrefix(fn, "runtime.map") || strings.HasPrefix(fn, "internal/runtime/maps.") {
+						mapAccess = true
+					}
+				}
 				if !strings.Contains(fn, "github.com/openconfig/gnmi/") {
 					continue
 				}
@@ -371,7 +392,7 @@ func readRaceReports() []raceReport {
 			}
 		}
 		sort.Strings(tops)
-		rr := raceReport{sig: strings.Join(tops, "|"), text: strings.TrimSpace(blk)}
+		rr := raceReport{sig: strings.Join(tops, "|"), text: strings.TrimSpace(blk), mapAccess: mapAccess}
 		if len(rr.text) > 6000 {
 			rr.text = rr.text[:6000]
 		}
